@@ -393,6 +393,41 @@ impl Host {
         }
     }
 
+    /// Bridge hosts: a response whose bytes do not decode as the request's output type.
+    pub fn malformed(&mut self, h: u16) -> (Option<Res>, Option<ObsOut>) {
+        let h = h as usize;
+        let mut out = ObsOut::default();
+        let r = match self.inner.as_mut().unwrap() {
+            Inner::Bincode { bridge, ids, .. } => {
+                let id = ids[h].0;
+                mc_kit::catch(|| bridge.handle_response(id, &[0xff, 0xff, 0xff]).map(|_| ()))
+            }
+            Inner::Json { bridge, ids, .. } => {
+                let id = ids[h].0;
+                mc_kit::catch(|| {
+                    let mut outbuf = vec![];
+                    let mut de = serde_json::Deserializer::from_slice(b"[true]");
+                    let mut ser = serde_json::Serializer::new(&mut outbuf);
+                    bridge.handle_response(id, &mut de, &mut ser)
+                })
+            }
+            _ => panic!("only bridge hosts decode responses"),
+        };
+        match r {
+            Ok(Ok(())) => (Some(Res::Ok), None),
+            Ok(Err(e)) => (Some(bridge_err(&e)), None),
+            Err(p) => {
+                self.dead = true;
+                if p.message.contains("not found") {
+                    (Some(Res::Never), None)
+                } else {
+                    out.panic = Some(format!("{} at {}:{}", p.message, p.file, p.line));
+                    (None, Some(out))
+                }
+            }
+        }
+    }
+
     pub fn drop_handle(&mut self, h: u16) {
         match self.inner.as_mut().unwrap() {
             Inner::Direct { handles, .. } | Inner::Stream { handles, .. } | Inner::Core { handles, .. } => {
@@ -512,6 +547,7 @@ fn bridge_err(e: &crux_core::bridge::BridgeError) -> Res {
     match e {
         crux_core::bridge::BridgeError::ProcessResponse(ResolveError::Never) => Res::Never,
         crux_core::bridge::BridgeError::ProcessResponse(ResolveError::FinishedMany) => Res::Finished,
+        crux_core::bridge::BridgeError::DeserializeOutput(_) => Res::Undecodable,
         _ => Res::Never,
     }
 }
